@@ -522,7 +522,9 @@ func loadObjectFromStdin(
 
 	var err error
 	view, ok := scope.Global().TemporaryTables.Load(stdin.String())
-	if !ok || (forUpdate && !view.FileInfo.ForUpdate) {
+	// The view is taken again for the first data-changing access only: once this transaction holds the lock,
+	// waiting for it once more could only end in a timeout, and the uncommitted changes would be discarded.
+	if !ok || (forUpdate && !view.FileInfo.ForUpdate && !scope.Tx.stdinIsLocked) {
 		if forUpdate {
 			if err = scope.Tx.LockStdinContext(ctx); err != nil {
 				return nil, err
